@@ -33,16 +33,16 @@ Definition out_code (o : res frame) : option N :=
 Definition lln_eqb := list_eqb (list_eqb N.eqb).
 
 (* inputs: max_retries, activated, the datagram numbers the BMC answers with an unrelated
-   frame first, initial next_sequence_number, initial session
+   frame first, the datagram numbers whose reply is lost, initial next_sequence_number, initial session
    sequence number, the threads' requests (netfn, cmd), the schedule (thread of every
    step the implementation performed at the model's granularity);
    observed: the step trace [tid; kind; value], the socket log, the outcomes per thread
    (payload serial, None = exception), the final next_sequence_number and session
    sequence number, whether the lock was free at the end *)
-Definition chk_run (maxr : N) (active : bool) (stale : list N) (nsn0 s0 : N) (progs : list (list (N * N)))
+Definition chk_run (maxr : N) (active : bool) (stale lose : list N) (nsn0 s0 : N) (progs : list (list (N * N)))
            (sched : list N) (tr wire : list (list N)) (outs : list (list (option N)))
            (nsn_end sseq_end : N) (lock_free : bool) : bool :=
-  let c := mkCfg (N.to_nat maxr) active stale in
+  let c := mkCfg (N.to_nat maxr) active stale lose in
   let '(labs, g) := exec_l c (map N.to_nat sched) (init nsn0 s0 (mk_progs progs)) in
   lln_eqb (trace_code (rev labs)) tr
   && Nat.eqb (length labs) (length sched)
